@@ -122,7 +122,7 @@ def run(rep, tier, seed, replay, proof_ok, proof_msg):
             if r.cpp is None or r.lean is None:
                 continue
             from props import C06
-            orc = C13.evaluate(r)[1] + C17.evaluate(r)[1] + C06.tsm_clauses(r)[1]
+            orc = C13.evaluate(r)[1] + C17.evaluate(r)[1] + C06.tsm_clauses(r)[1] + C13.tsm_history(r, "C13")[1]
             for sig, msg in orc[:3]:
                 rep.violation("C19:config:" + sig, "# configuration %r misbehaves: %s\n%s" % (r.case["cfg"], msg, text), True,
                               "configuration %r, case %s: %s" % (r.case["cfg"], r.case["name"], msg))
